@@ -45,6 +45,11 @@ class Collector:
         self.counts: Dict[str, int] = {}
         self.floors: List[tuple] = []
         self.notes: List[str] = []
+        self.undecided_msgs: List[str] = []
+
+    def undecided(self, msg: str):
+        """A construct the rule cannot decide: analysis error (exit 2) unless the run has violations to report."""
+        self.undecided_msgs.append(msg)
 
     def add(self, ob: Ob):
         self.obs.append(ob)
@@ -107,6 +112,10 @@ def finish(col: Collector, tier: str, seed: int, t0: float, meta: dict) -> int:
                 f"instance floor: {name} analysed {actual} < {minimum} confirmed by hand"
             )
     violations, known_hits, known_keys = classify(col)
+    if col.undecided_msgs and not violations:
+        raise AnalysisError("undecided construct(s): " + "; ".join(col.undecided_msgs[:3]))
+    for m in col.undecided_msgs[:5]:
+        print(f"UNDECIDED: {m}")
     evdir = os.path.join(VERIF, "evidence")
     os.makedirs(evdir, exist_ok=True)
     for o in known_hits:
